@@ -39,6 +39,7 @@ def parseDecl (j : Json) : Except String Decl := do
                          | some o => do return some (← ints o)
                          | none => pure none),
            allowRefs := (getOpt j "refs").bind (·.getBool?.toOption) |>.getD false,
+           readonly := (getOpt j "ro").bind (·.getBool?.toOption) |>.getD false,
            tags := ← (match getOpt j "tags" with
                       | some o => do return some (← ints o)
                       | none => pure none) }
@@ -116,7 +117,7 @@ def jOwner : Owner → Json
 def jP (p : OPObj) : Json := Json.mkObj [
   ("kind", Json.str (kindName p.kind)), ("owner", jOwner p.owner), ("default", jVal p.default),
   ("inst", Json.bool p.instantiate), ("const", Json.bool p.constant), ("pi", Json.bool p.perInstance),
-  ("cos", Json.bool p.checkOnSet), ("refs", Json.bool p.allowRefs), ("prec", jOpt toJson p.precedence), ("btup", jOpt jPair p.boundsTup),
+  ("cos", Json.bool p.checkOnSet), ("refs", Json.bool p.allowRefs), ("ro", Json.bool p.readonly), ("prec", jOpt toJson p.precedence), ("btup", jOpt jPair p.boundsTup),
   ("ms", Json.arr (p.mslots.map fun (s, c, l) =>
       Json.arr #[Json.str (slotName s), Json.mkObj [("c", toJson c), ("v", jInts l)]]).toArray)]
 
@@ -157,7 +158,7 @@ def pP (j : Json) : Except String OPObj := do
     return (← pSlot (← a[0]!.getStr?), ← getNat a[1]! "c", ← ints (← a[1]!.getObjVal? "v"))
   return { kind := ← parseKind (← getStr j "kind"), owner := ← pOwner (← j.getObjVal? "owner"),
            default := ← pVal (← j.getObjVal? "default"), instantiate := ← getBool j "inst",
-           constant := ← getBool j "const", perInstance := ← getBool j "pi", checkOnSet := ← getBool j "cos", allowRefs := ← getBool j "refs",
+           constant := ← getBool j "const", perInstance := ← getBool j "pi", checkOnSet := ← getBool j "cos", allowRefs := ← getBool j "refs", readonly := ← getBool j "ro",
            precedence := (getOpt j "prec").bind (·.getInt?.toOption), boundsTup := ← optPair j "btup",
            mslots := ms }
 
